@@ -63,7 +63,8 @@ Inductive action :=
 | AAddGlobal (cb ud : Z) (period : Z)                                (* xmpp_global_timed_handler_add *)
 | ADel (k : kind) (cb : Z)          (* xmpp_handler_delete / xmpp_id_handler_delete / xmpp_timed_handler_delete /
                                        xmpp_global_timed_handler_delete: by callback (and id) *)
-| ASend (data : str).               (* xmpp_send_raw *)
+| ASend (data : str)                (* xmpp_send_raw *)
+| AClk (d : Z).                     (* the callback takes d ms: time_stamp() is later for whatever runs after it *)
 
 Inductive event :=
 | EvCall (hid : nat) (cb ud : Z) (user : bool) (k : kind) (t : Z) (ret : bool)
@@ -269,6 +270,7 @@ Definition do_action (fuel : nat) (a : action) (st : state) : res state :=
   | AAddGlobal cb ud period => add_head fuel KGlobal cb ud true (FTimed period (clock st)) st
   | ADel k cb => delete_by fuel k (fun it => i_cb it =? cb) st None (get_head k st)
   | ASend d => Ok (if connected st then set_sendq st (sendq st ++ [d]) else st)     (* send_raw: state check only *)
+  | AClk d => Ok (set_clock st (clock st + d))
   end.
 
 Fixpoint do_actions (fuel : nat) (acts : list action) (st : state) : res state :=
